@@ -95,6 +95,7 @@ func Run(r *mc.Run) {
 	confs := []conf{
 		{name: "keep1-aggressive", keep: 1, cfg: map[string]interface{}{"scorchMergePlanOptions": bx.AggressiveMergePlan}},
 		{name: "keep3-default", keep: 3},
+		{name: "keep2-partial-merge", keep: 2, cfg: map[string]interface{}{"scorchMergePlanOptions": bx.PartialMergePlan}},
 	}
 	if !r.Quick() {
 		confs = append(confs,
